@@ -339,5 +339,139 @@ def run_c04(tier, t0):
         C.cleanup(wd)
 
 
+def _c12_one(a):
+    i, path, snap, resave = a
+    try:
+        b = open(path, "rb").read()
+        D = c3dref.decode(b)
+        out = []
+        if not os.path.exists(snap):
+            return i, None
+        S = compare.norm_snapshot(json.load(open(snap)))
+        out += [("load/" + k, d) for k, d in compare.loaded_vs_ref(S, D, max_out=6)]
+        # key-label words are header words too
+        H, h = S["h"], D["hdr"]
+        for lk, rk in (("klp", "klp"), ("fbk", "fbk"), ("fcp", "fcp")):
+            if H[lk] != h[rk]:
+                out.append(("load/header/" + lk, "library %d file %d" % (H[lk], h[rk])))
+        if os.path.exists(resave):
+            D2 = c3dref.decode(open(resave, "rb").read())
+            h2 = D2["hdr"]
+            for k in ("npts", "nmeas", "first", "last", "gap", "sub", "rate_bits", "klp", "fbk", "fcp", "nev", "etimes", "edisp_words", "elab"):
+                if h[k] != h2[k]:
+                    out.append(("resave/header/" + k, "original %r re-saved %r" % (h[k] if not isinstance(h[k], list) else h[k][:4], h2[k] if not isinstance(h2[k], list) else h2[k][:4])))
+            p1 = {(D["groups"][p["gid"]]["name"], p["name"]): p for p in D["params"] if p["gid"] in D["groups"]}
+            p2 = {(D2["groups"][p["gid"]]["name"], p["name"]): p for p in D2["params"] if p["gid"] in D2["groups"]}
+            for k, p in p1.items():
+                if k == (b"POINT", b"DATA_START") or p["type"] == -1:
+                    continue
+                q = p2.get(k)
+                if q is None:
+                    out.append(("resave/param_missing", repr(k)))
+                elif q["raw"] != p["raw"] or q["type"] != p["type"]:
+                    j = next((x for x in range(min(len(q["raw"]), len(p["raw"]))) if q["raw"][x] != p["raw"][x]), -1)
+                    out.append(("resave/param_bytes/" + {1: "byte", 2: "int", 4: "float"}[p["type"]], "%r: bytes differ at %d (%s vs %s)" % (k, j, p["raw"][j:j + 4].hex(), q["raw"][j:j + 4].hex())))
+            if [list(map(tuple, f[0])) for f in D["frames"]] != [list(map(tuple, f[0])) for f in D2["frames"]]:
+                out.append(("resave/point_floats", "point data words differ"))
+            if [[list(s) for s in f[1]] for f in D["frames"]] != [[list(s) for s in f[1]] for f in D2["frames"]]:
+                out.append(("resave/analog_floats", "analog data words differ"))
+        else:
+            out.append(("resave/missing", "no re-saved file"))
+        return i, out
+    except Exception as e:
+        import traceback
+        return i, [("HARNESS", "%s: %s %s" % (type(e).__name__, e, traceback.format_exc()[-400:]))]
+
+
+def c12_api_expected(idx):
+    if idx < 4:
+        return struct.pack("<16384h", *range(-32768 + idx * 16384, -32768 + (idx + 1) * 16384))
+    pats = [(s << 31) | (e << 23) | m for s in (0, 1) for e in range(256) for m in (0, 1, 1 << 22, (1 << 23) - 1)]
+    return struct.pack("<%dI" % len(pats), *pats)
+
+
+def run_c12_on(exe, wd, tag, viols, stats):
+    import gen12
+    cs = gen12.cases(C.seed())
+    cdir = os.path.join(wd, "corpus")
+    os.makedirs(cdir, exist_ok=True)
+    paths = []
+    for name, content, L, what in cs:
+        p = os.path.join(cdir, name + ".c3d")
+        if not os.path.exists(p):
+            open(p, "wb").write(c3dref.encode(content, L))
+        paths.append(p)
+    lst = os.path.join(cdir, "list.txt")
+    open(lst, "w").write("\n".join(paths) + "\n")
+    out = os.path.join(wd, "out_" + tag)
+    C.run_driver(exe, "loaddump", len(paths), out, args=["--list", lst, "--resave", "1"], chunk=4)
+    R = C.parse_out(out)
+    viols += R.viol
+    res = results_by_case(R)
+    with Pool(C.NCPU) as pool:
+        cr = pool.map(_c12_one, [(i, paths[i], os.path.join(out, "snap_%d.json" % i), os.path.join(out, "resave_%d.c3d" % i)) for i in range(len(paths))], chunksize=2)
+    for i, diffs in cr:
+        if diffs is None:
+            line = res.get(i, "")
+            viols.append(dict(prop="C12", key="pattern_file_refused/" + (line.split(" threw ")[1].split(" ")[0] if " threw " in line else "no_result"), detail="%s (%s): %s [%s]" % (cs[i][0], cs[i][3], line, tag), case=i, files=[paths[i]]))
+            continue
+        stats["files_compared"] += 1
+        for key, detail in diffs:
+            if key == "HARNESS":
+                raise C.Harness("C12 oracle failed on %s: %s" % (cs[i][0], detail))
+            viols.append(dict(prop="C12", key=key, detail="%s (%s) [%s]: %s" % (cs[i][0], cs[i][3], tag, detail), case=i, files=[paths[i]]))
+    # API direction
+    out = os.path.join(wd, "api_" + tag)
+    C.run_driver(exe, "c12api", 5, out, chunk=1)
+    R2 = C.parse_out(out)
+    viols += R2.viol
+    for case, line in R2.lines.get("RES", []):
+        stats["api_values_checked"] += int(line.split("checked=")[1].split()[0])
+    for k in range(5):
+        f = os.path.join(out, "api_%d.c3d" % k)
+        if not os.path.exists(f):
+            viols.append(dict(prop="C12", key="api/no_file", detail="case %d" % k, case=k))
+            continue
+        D = c3dref.decode(open(f, "rb").read())
+        p = [q for q in D["params"] if q["name"] in (b"INTS", b"FLOATS")]
+        want = c12_api_expected(k)
+        if not p or p[0]["raw"] != want:
+            j = -1 if not p else next((x for x in range(min(len(want), len(p[0]["raw"]))) if want[x] != p[0]["raw"][x]), -1)
+            viols.append(dict(prop="C12", key="api/bytes_written/" + ("int" if k < 4 else "float"), detail="case %d: bytes of the saved parameter differ from the little-endian encoding of the values handed to set() at byte %d [%s]" % (k, j, tag), case=k, files=[f]))
+        if k == 4:
+            words = [w for fr in D["frames"] for pt in fr[0] for w in pt]
+            if struct.pack("<%dI" % len(words), *words) != want:
+                viols.append(dict(prop="C12", key="api/bytes_written/point_floats", detail="point data words differ from the patterns handed over [%s]" % tag, case=k, files=[f]))
+        stats["api_files_decoded"] += 1
+    stats["ub"].update(R.ub)
+    return cs, R
+
+
 def run_c12(tier, t0):
-    raise C.Harness("not built yet")
+    selftest_codec()
+    wd = C.workdir("C12", tier)
+    try:
+        viols = []
+        stats = collections.Counter()
+        stats["ub"] = collections.Counter()
+        exe = build.build_flavour("asan")
+        cs, R = run_c12_on(exe, wd, "asan", viols, stats)
+        configs = ["asan"]
+        if tier == "thorough":
+            for bt, kind in (("Debug", "shared"), ("Release", "static")):
+                exe2 = build.build_cfg(bt, kind)
+                run_c12_on(exe2, wd, "cfg-%s-%s" % (bt, kind), viols, stats)
+                configs.append("cfg-%s-%s" % (bt, kind))
+        ub = stats.pop("ub")
+        kinds = collections.Counter(n.rsplit("_", 1)[0] for n, _, _, _ in cs)
+        cov = dict(evaluations=len(cs) * len(configs) + 5 * len(configs), distinct_nontrivial=len(cs) + 5,
+                   rule="one reference-encoded file per pattern set: all 256 byte values, all 65536 int16 values (4 x 16384), boundary values of every header word, 3584 float patterns (both signs x 256 exponents x 7 mantissas) in x/y/z/residual, analog samples, float parameters and event times; each is loaded (exact values required), re-saved and the re-saved bytes compared with the original bytes; plus the API direction (set() of every int16 value and 2048 float patterns -> bytes on disk -> load); distinct = distinct pattern files",
+                   samples=[dict(file=n, what=w) for n, _, _, w in (cs[0], cs[1], cs[5], cs[40], cs[-1])],
+                   pattern_files_by_kind=dict(kinds), build_configurations=configs, exhaustive=True,
+                   exhaustive_scope="2^8 byte values and 2^16 integer values in parameters (file->memory->file and API->file->memory); header words and floats are boundary-dense, not exhaustive",
+                   recoverable_ub_reports=dict(ub.most_common(6)), **{k: v for k, v in stats.items()})
+        inconc = None if stats["files_compared"] >= len(cs) * len(configs) * 0.95 else "only %d files compared" % stats["files_compared"]
+        return C.finish("C12", tier, "exploration", cov, viols, t0, replay_info=lambda v: dict(mode="loaddump", flavour="asan", args=["--resave", "1"]),
+                        assumptions=["reference codec correct (self-tested)"], inconclusive=inconc)
+    finally:
+        C.cleanup(wd)
